@@ -63,7 +63,16 @@ def binding_demo(ctx):
     cmds = [{"cmd": "new", "a": "", "rc": [False], "c": 0}, {"cmd": "start", "a": "seq", "rc": [False], "c": 0},
             nx, nx, nx]
     import os
-    d = os.path.join(ctx.workdir, "demo")
+    import shutil
+    d = cl.private_scratch(ctx)
+    try:
+        _binding_demo(ctx, d, scen, cmds)
+    finally:
+        shutil.rmtree(d, ignore_errors=True)
+
+
+def _binding_demo(ctx, d, scen, cmds):
+    import os
     os.makedirs(os.path.join(d, "fs"))
     ev = cl.run_history(os.path.join(d, "fs"), scen, cmds)
     good = dict(scen, ev=ev)
